@@ -5,7 +5,7 @@ import vcheck
 from vcheck import DiffProperty
 
 ARITY = {"new": 4, "res": 3, "set": 5, "ins": 3, "cut": 3, "det": 2, "cln": 2, "rel": 1, "trim": 2, "skip": 2,
-         "app": 2, "slen": 2, "cpy": 2, "mov": 2, "uins": 2, "ures": 2, "itest": 3}
+         "app": 2, "slen": 2, "cpy": 2, "mov": 2, "uins": 2, "ures": 2, "itest": 3, "rtest": 2}
 NH = 3
 END_OK = "end|live=0|leak=0"
 # One switch per proposed patch under docs/ (the model is the code AS PATCHED; while a patch is not in the tree under
@@ -14,12 +14,11 @@ PATCHED_SET_NOINIT_COPY = True   # docs/C05_set_noinit_copy.diff: mpt_buffer_set
 #                                   init function byte by byte (detach / reserve of a shared buffer, buffer::copy): finalised twice
 PATCHED_DETACH_NOFINI = True     # docs/C05_detach_nofini.diff: detach of a private immutable buffer to fewer bytes than used,
 #                                   traits without finaliser: all used bytes are copied into the smaller block (heap overflow)
-_SWITCHES = ("SET_NOINIT_COPY", "DETACH_NOFINI")
-# testing aid (scratch trees): VERIF_C05_PATCHED="SET_NOINIT_COPY" or "ALL" turns switches on without editing this file
-for _n in os.environ.get("VERIF_C05_PATCHED", "").replace(",", " ").split():
-    for _m in (_SWITCHES if _n == "ALL" else (_n,)):
-        if _m in _SWITCHES:
-            globals()["PATCHED_" + _m] = True
+PATCHED_REFARRAY_SIZE = True      # docs/C05_refarray_size.diff: reference_array<T> declares sizeof(T) as the size of its elements
+#                                   (they are reference<T>, one pointer): for every T that is not pointer sized insert is refused,
+#                                   resize finalises every (sizeof(T)/8)-th element only, elements stay alive after the last release
+_SWITCHES = ("SET_NOINIT_COPY", "DETACH_NOFINI", "REFARRAY_SIZE")
+# all patches are committed in /repo: constants, nothing at run time decides them
 SHAPES = ("A", "F", "I")          # init+fini / fini only / init only (first letter of the case)
 REQUIRE = ("ok: every constructor call creates a new element, every destructor call hits a live element exactly once, "
            "stored elements = live elements, nothing alive after the last release")
@@ -308,6 +307,65 @@ def sweep_cases(tier="quick", shape="A"):
     return out
 
 
+def ref_cases(rng, tier="quick"):
+    """mpt::reference_array<T> (rtest <sizeof T> <script>): directed scripts around the allocation steps of the block
+    (64 bytes = 8 references, 192 = 24, 320 = 40, 448 = 56) and random scripts; object sizes other than 8 need
+    docs/C05_refarray_size.diff"""
+    sizes = (8, 16, 24) if PATCHED_REFARRAY_SIZE else (8,)
+    out = []
+    steps = (0, 1, 2, 7, 8, 9, 23, 24, 25, 39, 40, 41, 56, 57)
+    for sz in sizes:
+        scripts = []
+        for n in steps:
+            fill = ["i%d.%d" % (k, k + 1) for k in range(min(n, 60))]
+            base = ",".join(fill)
+            pre = base + "," if base else ""
+            scripts.append(pre + "n")
+            for m in (0, 1, n - 1, n, n + 1, 8, 24, 40, -1, -n, -n - 1):
+                scripts.append(pre + "r%d,n" % m)
+                scripts.append(pre + "v%d,n,r%d" % (m, max(0, m)))
+            for p in (0, 1, n - 1, n, n + 1, n + 3, -1, -n, -n - 1, 8, 24, 40):
+                scripts.append(pre + "i%d.99,n" % p)
+                scripts.append(pre + "s%d.99,n,c99" % p)
+            scripts.append(pre + "c,n,k,r0")
+            scripts.append(pre + "c1,c%d,c77,k,n,r%d,i0.98" % (max(1, n), max(0, n - 1)))
+            scripts.append(pre + "r%d,k,i%d.97,k,c" % (n + 5, n + 7))
+            scripts.append(pre + "r0,i3.96,k,r1,r0")
+        # first and last reference of a block that is filled by resize
+        for n in (8, 24, 40, 56):
+            for d in (-1, 0, 1):
+                m = n + d
+                scripts.append("r%d,s0.1,s%d.2,s-1.3,n,r%d,n" % (m, m - 1, m - 1))
+                scripts.append("r%d,s0.1,s-1.2,i%d.3,n,c,r0" % (m, m))
+        for sc in scripts:
+            out.append("A8 B8 s- rtest %d %s" % (sz, sc))
+    for _ in range(300 if tier == "quick" else 6000):
+        sz = rng.choice(sizes)
+        ln, nid, ops = 0, 1, []
+        for _ in range(rng.choice([3, 5, 8, 12, 20, 40])):
+            op = rng.choice("iiiiisssrrrvckkn")
+            pos = rng.choice([0, 1, ln // 2, ln - 1, ln, ln + 1, ln + 3, -1, -ln, -ln - 1, 8, 24, 40, rng.randrange(-3, ln + 4)])
+            if op in "is":
+                if nid > 250:
+                    continue
+                ops.append("%s%d.%d" % (op, pos, nid)); nid += 1
+                if op == "i":
+                    q = pos + ln if pos < 0 else pos
+                    if q >= 0: ln = max(ln, q) + 1
+            elif op in "rv":
+                n = rng.choice([0, 1, ln - 1, ln, ln + 1, 8, 9, 24, 25, 40, -1, -ln, -ln - 1])
+                ops.append("%s%d" % (op, n))
+                if op == "r" and n >= 0: ln = n
+            elif op == "c":
+                ops.append("c" if rng.random() < 0.4 else "c%d" % rng.randrange(1, max(2, nid)))
+            else:
+                ops.append(op)
+            if ln > 120:
+                ops.append("r3"); ln = 3
+        out.append("A8 B8 s- rtest %d %s" % (sz, ",".join(ops)))
+    return out
+
+
 def stale_cases(tier="quick", shape="A"):
     """histories that leave STALE BYTES behind the used data and then grow over them: n elements, remove some (cut at the
     front / in the middle / at the end, trim, skip, set_length, resize: a memmove leaves a byte copy of the last moved
@@ -439,7 +497,13 @@ class C05(DiffProperty):
             "bytes) x every operation that looks at the flag x every size; 800 + 500 random histories of shapes F and I; "
             "thorough: full sweeps + 60000 + 20000 + 20000 + 20000 random histories (<= 25 ops); cases that need a patch of "
             "docs/C05_*.diff are left out while its PATCHED_ switch is off (shape F: source data for mpt_buffer_set, "
-            "buffer::copy, shared or immutable buffers without BufferNoCopy; shape I: immutable buffers); a case is non-trivial "
+            "buffer::copy, shared or immutable buffers without BufferNoCopy; shape I: immutable buffers); the class template "
+            "mpt::reference_array<T> itself (rtest <sizeof T> <script>: T = reference-counted object of 8 / 16 / 24 bytes, script "
+            "of insert(pos, new T) / set(pos, new T) / resize / reserve / clear() / clear(object) / compact / count with "
+            "positions and lengths at 0, 1, len-1, len, len+1, negative, and at the allocation steps of the block: 8, 24, 40, 56 "
+            "references +-1; every step compared with a plain list of object ids, at the end every object deleted exactly "
+            "once): 14 fills x 60 directed scripts + 300 random scripts; object sizes 16 / 24 need docs/C05_refarray_size.diff "
+            "(PATCHED_REFARRAY_SIZE); a case is non-trivial "
             "when it runs at least one operation (all are); distinct = distinct case text")
     modelled = ("mptcore/array/buffer_set.c, buffer_cut.c, buffer_insert.c, buffer_alloc.c (alloc size, get_flags, addref, unref, detach), "
                 "array_reserve.c, array_clone.c; mpt++/array.cpp buffer::trim/skip/append/copy/move; mptcore/array.h "
@@ -453,7 +517,11 @@ class C05(DiffProperty):
                 "scenario with ASan + LeakSanitizer + reference counters as observers (events and tokens compared only for the "
                 "harness traits). Not modelled: raw byte contents, compatible-but-different traits (same fini and size), traits "
                 "with neither init nor fini (plain data: C04), malloc failure, mpt_array_set/mpt_array_slice/append/insert (C04), "
-                "_mpt_buffer_map")
+                "_mpt_buffer_map. mpt::reference_array<T> (insert / set / clear / count / compact over unique_array<reference<T>>, "
+                "content traits with a finaliser only = shape F of the model) is compared with a plain-list specification INSIDE "
+                "the harness (self-checking scenario rtest, reference counters + ASan + LeakSanitizer as observers), AS PATCHED by "
+                "docs/C05_refarray_size.diff; its mechanism underneath (unique_array insert / resize / reserve on fini-only traits, "
+                "buffer::trim, mpt_buffer_insert) is the modelled one")
     trusted = ["harness/c05_typed.cpp: traits whose init/fini log events and store magic+token in the element; state read back from "
                "the data area independently of the library; mpt++/array.cpp compiled into the harness with -fno-sanitize=vptr "
                "(buffers carry the C vtable)",
@@ -490,7 +558,14 @@ class C05(DiffProperty):
                   "mpt_array_reserve of a shared or immutable buffer without BufferNoCopy and buffer::copy finalise every element "
                   "twice (docs/C05_set_noinit_copy.diff, docs/C05_replay_set_noinit_copy.json); detach of a private immutable buffer "
                   "to fewer bytes than used copies ALL used bytes into the smaller block when the traits have no finaliser - heap "
-                  "overflow, also for arrays of plain typed data (docs/C05_detach_nofini.diff, docs/C05_replay_detach_nofini.json).")
+                  "overflow, also for arrays of plain typed data (docs/C05_detach_nofini.diff, docs/C05_replay_detach_nofini.json). "
+                  "Coverage round 5: the class template reference_array<T> was executed by no check; driven now by the "
+                  "self-checking scenario rtest (specification = plain list inside the harness, no Coq model of its own). "
+                  "OPEN in /repo: reference_array<T> declares sizeof(T) as the size of its elements although they are "
+                  "reference<T> (one pointer): for every T that is not pointer sized (mpt++ uses layout and cycle) insert is "
+                  "always refused, resize finalises only every (sizeof(T)/8)-th reference and the others stay alive after the "
+                  "last handle is gone (docs/C05_refarray_size.diff, docs/C05_replay_refarray_size.json, switch "
+                  "PATCHED_REFARRAY_SIZE keeps object sizes 16 / 24 out until the patch is committed).")
     technique = ("Coq invariant proof over an event-logging heap model (closed forms of the byte-offset loops, frame lemma per operation, "
                  "fold over histories) + runtime monitor extracted from the Coq specification + differential correspondence check")
     assumptions = ["malloc succeeds", "element constructors/destructors of the harness traits have no effect besides the log and the element bytes",
@@ -526,6 +601,12 @@ class C05(DiffProperty):
             yield self.join(hdr, ops[:k])
         for k in range(len(ops)):
             yield self.join(hdr, ops[:k] + ops[k + 1:])
+        for k, o in enumerate(ops):
+            if o[0] == "rtest":
+                parts = o[2].split(",")
+                for j in range(len(parts)):
+                    if len(parts) > 1:
+                        yield self.join(hdr, ops[:k] + [o[:2] + [",".join(parts[:j] + parts[j + 1:])]] + ops[k + 1:])
         s = hdr[2][1:]
         if s != "-":
             yield self.join(hdr[:2] + ["s-"], ops)
@@ -579,6 +660,7 @@ class C05(DiffProperty):
             cases.append(gen_case(rng, maxops=mo, shape="F"))
         for i in range(500 if tier == "quick" else 20000):
             cases.append(gen_case(rng, maxops=mo, shape="I"))
+        cases += ref_cases(rng, tier)
         return cases
 
     # -- two passes: the specification monitor judges the log the implementation printed
